@@ -6,6 +6,7 @@ contract that nothing backs any more."""
 import sys, os, json
 sys.path.insert(0, os.path.dirname(os.path.dirname(os.path.abspath(__file__))))
 sys.dont_write_bytecode = True
+os.environ['OQ3_TRUSTED_REGEN'] = '1'
 from vlib import driver
 import units
 out = {}
